@@ -5,7 +5,7 @@
    Stated for EVERY configuration (any jubilee height, any first inscription height, sat index on or
    off), every chain with pairwise distinct transaction ids and arbitrary (already parsed) envelopes,
    whenever indexing succeeds (no panic). *)
-From OrdV Require Import Base.Prelude Generated Index.Inscr Proofs.Inscr_tables Proofs.Inscr_proofs Proofs.Inscr_c04 Proofs.Inscr_ids.
+From OrdV Require Import Base.Prelude Generated Index.Inscr Proofs.Inscr_tables Proofs.Inscr_proofs Proofs.Inscr_c04 Proofs.Inscr_ids Proofs.Inscr_idh.
 
 Theorem C05_numbering : forall cfg c st,
   NoDup (chain_txids c) ->
@@ -43,6 +43,16 @@ Proof.
   split; [exact J|].
   intros s e He. apply (HS (i_id e)). unfold dom. rewrite (IF _ _ He). discriminate.
 Qed.
+
+(* Every id names its reveal: for EVERY chain (no validity assumption), whenever indexing succeeds, each
+   entry's id is (txid of a transaction t of the block at the entry's height, k) with k below the number of
+   envelopes of t. *)
+Theorem C05_ids_name_reveals : forall cfg c st,
+  index_chain cfg 0 c empty_state = Ok st ->
+  forall s e, tget N.eqb s (s_entries st) = Some e ->
+    exists blk t, nth_error c (N.to_nat (i_height e)) = Some blk /\ In t blk /\
+      t_id t = fst (i_id e) /\ snd (i_id e) < N.of_nat (length (t_envs t)).
+Proof. exact ids_name_reveals. Qed.
 
 (* the per-transaction part of "id = reveal txid + index among the transaction's envelopes":
    the new inscriptions of a transaction carry its txid and pairwise distinct indices *)
@@ -88,3 +98,4 @@ Qed.
 Print Assumptions C05_numbering.
 Print Assumptions C05_ids_of_a_transaction.
 Print Assumptions C05_ids_in_envelope_order.
+Print Assumptions C05_ids_name_reveals.
